@@ -174,7 +174,7 @@ def run(ctx):
             if not pl or len(pl) != 1:
                 continue
             srcs = b.trace_local(pl[0])
-            if any(o[0] == "place" and any(e == "@Continue" for e in o[1][1:]) for o in srcs):
+            if any(o[0] == "place" and any(e in ("@Continue", "@Ok") for e in o[1][1:]) for o in srcs):
                 tr, fa = switch_edges_on_local(b, sb)
                 if i not in b.reachable_from(list(fa), avoid={sb}):
                     ok2 = True
